@@ -90,7 +90,7 @@ func c15(c *Ctx) {
 	for len(progs) < n {
 		progs = append(progs, genBPProg(rng))
 	}
-	emitPipelineCases(c, progs, []pipeCheck{chkDiff, chkBP}, 20, func(p *Prog, ob *Observed) bool {
+	emitPipelineCases(c, progs, []pipeCheck{chkDiff, chkBP, chkBind}, 20, func(p *Prog, ob *Observed) bool {
 		return p.Tags["explicit-bp"] || p.Tags["pressure15"]
 	})
 	c.Out.Plan.Rule = "functions writing the base pointer through each view (BPB/BP/EBP/RBP), through implicit-style outputs, or through the allocator under pressure >= 15 live GP values, crossed with attribute sets {0, NOSPLIT, NOFRAME, NOSPLIT|NOFRAME} and frame sizes {0, >0}; non-trivial = the base pointer is named or pressure reaches 15; distinct by program text"
